@@ -7,6 +7,8 @@ package main
 
 import (
 	"fmt"
+	"io"
+	"log/slog"
 	"sort"
 	"strconv"
 
@@ -20,11 +22,13 @@ type caseT struct {
 	// NoRoute: a custom NoRoute handler that aborts is installed and an unmatched request is served
 	// right before the request of the case (same pooled context); Tracing: app with tracing on.
 	// Both are configuration the model says is irrelevant to the chain.
-	NoRoute bool      `json:"noroute"`
-	Tracing bool      `json:"tracing"`
-	Script  []cx.Op   `json:"script"`
-	Beh     []cx.Beh  `json:"beh"`
-	Target  cx.Target `json:"target"`
+	NoRoute bool `json:"noroute"`
+	Tracing bool `json:"tracing"`
+	// FailW: every body write reports an error (broken pipe) after the bytes were taken
+	FailW  bool      `json:"failw,omitempty"`
+	Script []cx.Op   `json:"script"`
+	Beh    []cx.Beh  `json:"beh"`
+	Target cx.Target `json:"target"`
 }
 
 // ---------------------------------------------------------------- generator
@@ -532,16 +536,20 @@ func genBeh(r *hx.Rand, st *hx.Stats) []cx.Act {
 		name, acts = "return", a()
 	case k < 55:
 		name, acts = "next_twice", a("N", "N")
-	case k < 60:
+	case k < 58:
 		name, acts = "abort", a("A")
-	case k < 65:
+	case k < 60:
+		name, acts = "fail", []cx.Act{{K: "F", V: r.Intn(2)}}
+	case k < 63:
 		name, acts = "abort_then_next", a("A", "N")
+	case k < 65:
+		name, acts = "fail_then_next", []cx.Act{{K: "F", V: r.Intn(2)}, {K: "N"}}
 	case k < 69:
 		name, acts = "write_next", a("W", "N")
 	case k < 73:
 		name, acts = "next_write", a("N", "W")
 	case k < 78:
-		name, acts = "cancel_next", a("C", "N")
+		name, acts = "cancel_next", []cx.Act{{K: "C", V: r.Intn(2)}, {K: "N"}}
 	case k < 81:
 		name, acts = "next_abort", a("N", "A")
 	case k < 85:
@@ -599,7 +607,7 @@ func genScript(r *hx.Rand, st *hx.Stats) (caseT, []cx.Target) {
 			g.addEntry(0, entry{nil, i, []int{sg}, -1})
 		}
 	}
-	c := caseT{Check: !r.Chance(1, 4), Compiled: r.Chance(1, 3), NoRoute: r.Chance(1, 4), Tracing: g.app && r.Chance(1, 3), Script: g.script}
+	c := caseT{Check: !r.Chance(1, 4), Compiled: r.Chance(1, 3), NoRoute: r.Chance(1, 4), Tracing: g.app && r.Chance(1, 3), FailW: r.Chance(1, 5), Script: g.script}
 	for h := 1; h <= g.nextH; h++ {
 		c.Beh = append(c.Beh, cx.Beh{H: h, Acts: genBeh(r, st)})
 	}
@@ -623,7 +631,7 @@ func genScript(r *hx.Rand, st *hx.Stats) (caseT, []cx.Target) {
 func nontrivialActs(acts []cx.Act) bool {
 	for i, x := range acts {
 		switch x.K {
-		case "A", "C", "P":
+		case "A", "C", "P", "F":
 			return true
 		case "N":
 			if i != len(acts)-1 {
@@ -707,6 +715,9 @@ func countEnters(tr []string) int {
 
 func runScript(idp string, c caseT, ts []cx.Target, w *hx.Rand, st *hx.Stats, out func(string)) {
 	world, err := cx.Build(c.Script, cx.BuildOpts{Check: c.Check, Compiled: c.Compiled, NoRoute: c.NoRoute, Tracing: c.Tracing})
+	if world != nil {
+		world.FailWrites = c.FailW
+	}
 	if err != nil {
 		out(fmt.Sprintf("# %s: script not executable: %v%s", idp, err, hx.Comment(c)))
 		if st != nil {
@@ -819,6 +830,8 @@ func fixed() []struct {
 }
 
 func main() {
+	// app.Context.Fail logs through slog.Default(): keep stderr quiet
+	slog.SetDefault(slog.New(slog.NewTextHandler(io.Discard, nil)))
 	args := hx.ParseArgs()
 	w := hx.Out()
 	defer w.Flush()
@@ -844,6 +857,9 @@ func main() {
 				continue
 			}
 			world, err := cx.Build(c.Script, cx.BuildOpts{Check: c.Check, Compiled: c.Compiled, NoRoute: c.NoRoute, Tracing: c.Tracing})
+			if world != nil {
+				world.FailWrites = c.FailW
+			}
 			if err != nil {
 				out(fmt.Sprintf("# %s: script not executable: %v", id, err))
 				continue
